@@ -62,7 +62,7 @@ def main():
                         VERIF_REPLAY_DIR=os.path.join(tmp, "replays"))
             if os.environ.get("SEED_VERIF_SEED"):
                 env2["VERIF_SEED"] = os.environ["SEED_VERIF_SEED"]
-            rc, so, se = run(["/verif/check", chk, "--tier", tier], env=env2, timeout=7200)
+            rc, so, se = run([os.path.join(os.path.dirname(os.path.dirname(os.path.abspath(__file__))), "check"), chk, "--tier", tier], env=env2, timeout=7200)
             lines = so.strip().splitlines()
             kinds = {}
             for ln in lines:
